@@ -235,6 +235,13 @@ def run_cases(binary, cases, tag="c", nproc=None, env_extra=None, per_case_timeo
             if finished and done == len(layout):
                 pos += done
                 continue
+            if done == len(layout):
+                # every command produced its record but the driver did not end cleanly: it died while tearing the last case down
+                ci = layout[-1][0]
+                what = crash_rec or ("exit=%s" % rc)
+                results[ci]["crash"] = {"what": what, "cmd_index": layout[-1][2], "sig": san_summary(err) or (_crash_sig(what) + "@teardown"), "stderr": err[-6000:]}
+                pos += done
+                continue
             # crashed (or hung) inside layout[done]
             ci, first, nc = layout[done]
             got = recs[first + 1:nrec] if first + 1 <= nrec else []
@@ -303,7 +310,10 @@ def run_lines(binary, items, tag="l", nproc=None, env_extra=None, chunk=20000, p
             if finished and k == e:
                 break
             if k >= e:
-                raise HarnessError("driver did not finish but produced all records: rc=%s\n%s" % (rc, err[-2000:]))
+                # all records are there but the driver did not end cleanly (it died after the last line): charge the last line
+                what = crash_rec or ("exit=%s" % rc)
+                results[e - 1] = {"crash": {"what": what, "sig": san_summary(err) or (_crash_sig(what) + "@teardown"), "stderr": err[-6000:]}}
+                break
             what = crash_rec or ("exit=%s" % rc)
             if rc == -999:
                 what = "hang(outer-timeout)"
